@@ -160,16 +160,17 @@ func ruleOPT5(c *Ctx) {
 		}
 		info := f.Info()
 		sets := false
-		InspectNoLit(f.Body(), func(nd ast.Node) bool {
+		// the function itself or a private helper it calls sets the tag options
+		p.InspectScope(f, func(g *FuncInfo, nd ast.Node) bool {
 			switch x := nd.(type) {
 			case *ast.CallExpr:
-				if m, _, v, ok := FlagCall(info, x); ok && m == "Set" && v&tag != 0 {
+				if m, _, v, ok := FlagCall(g.Info(), x); ok && m == "Set" && v&tag != 0 {
 					sets = true
 				}
 			case *ast.AssignStmt:
 				for i, l := range x.Lhs {
-					if SelField(info, l) == formatField && i < len(x.Rhs) {
-						if s, isC := ConstStr(info, x.Rhs[i]); !isC || s != "" {
+					if SelField(g.Info(), l) == formatField && i < len(x.Rhs) {
+						if s, isC := ConstStr(g.Info(), x.Rhs[i]); !isC || s != "" {
 							sets = true
 						}
 					}
@@ -180,20 +181,38 @@ func ruleOPT5(c *Ctx) {
 		if !sets {
 			continue
 		}
+		// a private helper (unexported declaration all of whose callers are in this package) is
+		// analysed as part of its callers, where its body is walked in place
+		if f.Decl != nil && f.Obj != nil && !ast.IsExported(f.Obj.Name()) && f.Decl.Recv == nil {
+			if cs := callersOf(p, f.Obj); len(cs) > 0 {
+				continue
+			}
+		}
 		n++
 		type st struct {
 			saved      bool
 			flagsDirty bool
 			fmtDirty   bool
 		}
-		var savedVar types.Object
+		savedVars := map[types.Object]bool{}
 		bad := ""
 		report := func(msg string, pos token.Pos) {
 			if bad == "" {
 				bad = msg + " at " + p.Position(pos)
 			}
 		}
-		fl := &Flow[st]{Fn: f}
+		fl := &Flow[st]{Fn: f, Inline: p.InlineAny(f)}
+		fl.Bind = func(callee *FuncInfo, call *ast.CallExpr, s st) st {
+			if callee.Obj != nil {
+				sig := callee.Obj.Type().(*types.Signature)
+				for i := 0; i < sig.Params().Len() && i < len(call.Args); i++ {
+					if savedVars[IdentObj(info, call.Args[i])] {
+						savedVars[sig.Params().At(i)] = true
+					}
+				}
+			}
+			return s
+		}
 		visit := func(nd ast.Node, s st) st {
 			for _, call := range CallsIn(nd) {
 				if m, _, v, ok := FlagCall(info, call); ok && m == "Set" && v&tag != 0 {
@@ -209,18 +228,27 @@ func ruleOPT5(c *Ctx) {
 			switch x := nd.(type) {
 			case *ast.AssignStmt:
 				s = visit(nd, s)
+				if len(x.Rhs) == 1 && s.saved {
+					if call, ok := ast.Unparen(x.Rhs[0]).(*ast.CallExpr); ok && fl.Inline(call) != nil {
+						for _, l := range x.Lhs {
+							if lv, _ := IdentObj(info, l).(*types.Var); lv != nil && !lv.IsField() {
+								savedVars[lv] = true // the helper hands back what it saved
+							}
+						}
+					}
+				}
 				if len(x.Lhs) == len(x.Rhs) {
 					for i, l := range x.Lhs {
-						// saved := X.Flags
-						if SelField(info, x.Rhs[i]) == flagsField && x.Tok == token.DEFINE {
+						// saved := X.Flags (or an assignment to a local / named result)
+						if lv, _ := IdentObj(info, l).(*types.Var); SelField(info, x.Rhs[i]) == flagsField && lv != nil && !lv.IsField() {
 							if s.flagsDirty || s.fmtDirty {
 								report("flags saved again while tag options of the previous value are still set", x.Pos())
 							}
-							savedVar = IdentObj(info, l)
+							savedVars[lv] = true
 							s.saved = true
 						}
 						// X.Flags = saved
-						if SelField(info, l) == flagsField && x.Tok == token.ASSIGN && savedVar != nil && IdentObj(info, x.Rhs[i]) == savedVar {
+						if SelField(info, l) == flagsField && x.Tok == token.ASSIGN && savedVars[IdentObj(info, x.Rhs[i])] {
 							s.flagsDirty = false
 						}
 						if SelField(info, l) == formatField && x.Tok == token.ASSIGN {
